@@ -190,6 +190,11 @@ func (s *SwapStateMachine) SendEvent(event EventType, eventCtx EventContext) (bo
 
 	// validate and apply event context
 	if eventCtx != nil {
+		// An event that the current state does not accept must not change
+		// (and persist) the swap data.
+		if _, err := s.getNextState(event); err != nil {
+			return false, ErrEventRejected
+		}
 		err = eventCtx.Validate(s.Data)
 		if err != nil {
 			s.mutex.Unlock()
